@@ -34,6 +34,7 @@ def opts(tier):
     o.max_chunks = 6
     o.many_segments_p = 0.02
     o.p_none = 0.25
+    o.long_run_p = 0.006
     o.short_last_p = 0.08
     o.equal_shapes_p = 0.25
 
